@@ -796,6 +796,7 @@ fn emit_fn(
     rw.fix_generics(&mut sig.generics);
     let mut prologue: Vec<Stmt> = Vec::new();
     let mut argn = 0;
+    let mut mut_self = false;
     for a in sig.inputs.iter_mut() {
         match a {
             FnArg::Receiver(r) => {
@@ -810,6 +811,11 @@ fn emit_fn(
                 } else if r.reference.is_some() {
                     let m = r.mutability;
                     *a = if m.is_some() { parse_quote!(&mut self) } else { parse_quote!(&self) };
+                } else if r.mutability.is_some() {
+                    // R17: `mut self` -> `self` + `let mut __vx_self = self;` (Verus does not accept `mut self`)
+                    *a = parse_quote!(self);
+                    mut_self = true;
+                    rw.log.push("R17 mut self rebinding".into());
                 }
             }
             FnArg::Typed(pt) => {
@@ -889,6 +895,18 @@ fn emit_fn(
     // body
     let mut block = func.block.clone();
     rw.visit_block_mut(&mut block);
+    if mut_self {
+        struct SelfRename;
+        impl VisitMut for SelfRename {
+            fn visit_expr_path_mut(&mut self, p: &mut ExprPath) {
+                if p.path.is_ident("self") {
+                    p.path = parse_quote!(__vx_self);
+                }
+            }
+        }
+        SelfRename.visit_block_mut(&mut block);
+        prologue.insert(0, parse_quote!(let mut __vx_self = self;));
+    }
     for (k, st) in prologue.into_iter().enumerate() {
         block.stmts.insert(k, st);
     }
